@@ -150,6 +150,26 @@ func (prop) Run(t *testing.T, s *sim.Sim, res *runner.Result) {
 					}
 				}})
 			}
+			if cs := w.ComposedObjects(); len(cs) > 0 {
+				// a composed resource is deleted while its provider's finalizer holds it
+				// (it exists, terminating, until the provider lets it go)
+				acts = append(acts, sim.Action{Key: "somebody deletes a composed resource that its provider's finalizer holds", Weight: 1, Run: func() {
+					ctx := context.Background()
+					c := cs[tp.Next(len(cs))]
+					u := c.Obj.DeepCopy()
+					if u.GetDeletionTimestamp() != nil {
+						u.SetFinalizers(nil)
+						if w.Direct.Update(ctx, u) == nil {
+							s.Probe("terminating-composed-resource-let-go")
+						}
+						return
+					}
+					u.SetFinalizers([]string{"finalizer.provider.example.org"})
+					if w.Direct.Update(ctx, u) == nil && w.Direct.Delete(ctx, u) == nil {
+						s.Probe("composed-resource-terminating")
+					}
+				}})
+			}
 			if !w.Core.Dead {
 				acts = append(acts, sim.Action{Key: "core: garbage collect function connections", Weight: 2, Run: func() {
 					r := w.Runner
